@@ -15,6 +15,7 @@ pub mod c10;
 pub mod c11;
 pub mod c12;
 pub mod c13;
+pub mod c14;
 pub mod c15;
 pub mod c16;
 pub mod c17;
@@ -43,6 +44,7 @@ pub fn run(id: &str, ctx: &Ctx) -> bool {
         "C11" => c11::run(ctx),
         "C12" => c12::run(ctx),
         "C13" => c13::run(ctx),
+        "C14" => c14::run(ctx),
         "C15" => c15::run(ctx),
         "C16" => c16::run(ctx),
         "C17" => c17::run(ctx),
@@ -66,6 +68,7 @@ pub fn replay(id: &str, ctx: &Ctx, case: &Value) -> Option<()> {
         "C11" => c11::check_case(ctx, case),
         "C12" => c12::check_case(ctx, case),
         "C13" => c13::check_case(ctx, case),
+        "C14" => c14::check_case(ctx, case),
         "C15" => c15::check_case(ctx, case),
         "C16" => c16::check_case(ctx, case),
         "C17" => c17::check_case(ctx, case),
